@@ -336,6 +336,9 @@ def child_sa_ranges(ck, rng, orc, cap, i):
         A_ = ipaddress.IPv4Address if v == 4 else ipaddress.IPv6Address
         got_s = ipaddress.ip_network((A_(bytes.fromhex(sel['saddr'])[:bits // 8]), sel['prefixlen_s']), strict=False) if sel else None
         got_d = ipaddress.ip_network((A_(bytes.fromhex(sel['daddr'])[:bits // 8]), sel['prefixlen_d']), strict=False) if sel else None
+        if sel and sel.get('family') != AF[v]:
+            ck.violation('NEWSA-selector-family-differs-from-the-family-of-the-negotiated-range', {'family': sel.get('family'), 'want': AF[v], 'tsi': case['tsi'], 'tsr': case['tsr']}, dict(case, raw=raw))
+            return
         if (got_s, got_d) != (src_net, dst_net):
             ck.violation('NEWSA-selector-is-not-the-smallest-network-containing-the-negotiated-range', {'got': (str(got_s), str(got_d)), 'want': (str(src_net), str(dst_net))}, dict(case, raw=raw))
             return
@@ -450,7 +453,25 @@ def reverse(ck, rng, orc, cap, i):
         raised = None
         try:
             try:
-                r_xfrm.Xfrm.send_recv(r_xfrm.XFRM_MSG_FLUSHSA, 5, r_xfrm.XfrmUserSaFlush(proto=0))
+                # the error must surface whichever request it answers (a refusal of NEWPOLICY / NEWSA is not "already there, fine": the kernel holds something else
+                # than what was asked for); delete_sa is left out, it reports a refusal in the log by design
+                api = rng.choice(['send_recv', 'send_recv', 'create_policy', 'create_sa', 'flush_policies', 'flush_sas'])
+                case['through'] = api
+                ck.seen('reverse.reply.apis', (api, err != 0))
+                if api == 'send_recv':
+                    r_xfrm.Xfrm.send_recv(r_xfrm.XFRM_MSG_FLUSHSA, 5, r_xfrm.XfrmUserSaFlush(proto=0))
+                elif api == 'create_policy':
+                    v_ = rng.choice([4, 6])
+                    r_xfrm.Xfrm.create_policy(rand_net(rng, v_), rand_net(rng, v_), rng.choice(PORTS), rng.choice(PORTS), rng.choice([0, 6, 17]), rng.choice([0, 1, 2]), rng.choice([50, 51]),
+                                              rng.choice([r_xfrm.Mode.TRANSPORT, r_xfrm.Mode.TUNNEL]), rand_addr(rng, 4), rand_addr(rng, 4), index=rng.randrange(1, 2 ** 20))
+                elif api == 'create_sa':
+                    v_ = rng.choice([4, 6])
+                    r_xfrm.Xfrm.create_sa(rand_net(rng, v_), rand_net(rng, v_), 0, 0, gen.rb(rng, 4), 0, 50, r_xfrm.Mode.TUNNEL, rand_addr(rng, 4), rand_addr(rng, 4), b'cbc(aes)', gen.rb(rng, 16),
+                                          b'hmac(sha256)', gen.rb(rng, 32), 300)
+                elif api == 'flush_policies':
+                    r_xfrm.Xfrm.flush_policies()
+                else:
+                    r_xfrm.Xfrm.flush_sas()
             except r_netlink.NetlinkError as ex:
                 raised = ex
             except Exception as ex:
@@ -464,7 +485,7 @@ def reverse(ck, rng, orc, cap, i):
         if err == 0 and raised is not None:
             ck.violation('kernel-ack-reported-as-an-error', {'exc': str(raised)}, case)
         if err != 0 and raised is None:
-            ck.violation(f"kernel-error-reply-not-surfaced-as-an-error:{'own-pid' if pid == os.getpid() else 'other-port-id'}", {'errno': err, 'pid': pid}, case)
+            ck.violation(f"kernel-error-reply-not-surfaced-as-an-error:{'own-pid' if pid == os.getpid() else 'other-port-id'}:{case.get('through')}", {'errno': err, 'pid': pid}, case)
 
 
 def run(ck):
